@@ -250,3 +250,98 @@ def _hip_read(h):
     for key, p in h.ParameterDict.items():
         if key.strip() in h.InputParameters:
             ReadParameter(h.InputParameters[key.strip()], p, h)
+
+
+# ---------------------------------------------------------------------------------------------------------------------
+# BOUNDED stand-in (never counted as proved): inputs written WITH a unit.  The ReadParameter contract above is proved for
+# plain numerals; a text with a unit goes through ConvertUnits (pint / string code outside the executor's reach, C06), and
+# only then reaches the range test.  The real ReadParameter is run on an out-of-range quantity written in every catalogue
+# unit of the parameter's kind: it must raise ValueError naming the parameter and leave the value alone.
+# ---------------------------------------------------------------------------------------------------------------------
+from pyvc.run import bounded_check  # noqa: E402
+
+
+@bounded_check("C07", "out-of-range-quantity-written-with-a-unit-is-rejected")
+def unit_suffixed_out_of_range(seed, tier):
+    import contextlib
+    import copy
+    import io
+    import logging
+    import types
+    import pint
+    from contracts.c06_units import _catalogue, _currency_factor
+    from geophires_x.Parameter import ParameterEntry, ReadParameter
+    from geophires_x.Units import Units, get_unit_registry
+    ureg = get_unit_registry()
+    logging.disable(logging.CRITICAL)
+    stub = types.SimpleNamespace(logger=logging.getLogger("pyvc-stub"))
+    results, n_eval, seen_decl = {}, 0, set()
+    for src in parameter_sources():
+        if src["kind"] != "floatParameter":
+            continue
+        p0 = _param_obj(src)
+        if p0.UnitType == Units.NONE or not hasattr(p0.PreferredUnits, "value"):
+            continue
+        conv = "currency" if p0.UnitType in (Units.CURRENCY, Units.CURRENCYFREQUENCY, Units.COSTPERMASS, Units.ENERGYCOST) \
+            else "pint"
+        decl = (src["name"], repr(p0.Min), repr(p0.Max), str(p0.PreferredUnits.value),
+                str(getattr(p0.CurrentUnits, "value", p0.CurrentUnits)))
+        if decl in seen_decl:
+            continue
+        seen_decl.add(decl)
+        pref = str(p0.CurrentUnits.value) if hasattr(p0.CurrentUnits, "value") else str(p0.PreferredUnits.value)
+        kind = type(p0.PreferredUnits).__name__
+        lo, hi = float(p0.Min), float(p0.Max)
+        if not (lo > -1e29 and hi < 1e29 and hi > lo):
+            continue
+        span = hi - lo
+        outside = [hi + 0.5 * span, hi + 1e-3 * span] + ([lo - 0.5 * span] if tier == "thorough" else [])
+        for u in _catalogue(p0):
+            ustr = str(u.value)
+            if not ustr.strip():
+                continue
+            key = (kind, ustr)
+            results.setdefault(key, [])
+            for v_pref in outside:
+                try:
+                    if conv == "pint":
+                        user_mag = ureg.Quantity(v_pref, pref).to(ustr).magnitude
+                        back = ureg.Quantity(user_mag, ustr).to(pref).magnitude
+                    else:
+                        f = _currency_factor(pref, ustr)
+                        if f is None:
+                            continue
+                        user_mag = v_pref * f
+                        back = user_mag / f
+                except Exception:
+                    continue     # not convertible / unknown to the registry: C06's findings, not this clause
+                if not (back > hi or back < lo):
+                    continue     # rounding brought it back inside: not an out-of-range input
+                p = copy.deepcopy(p0)
+                before = p.value
+                entry = ParameterEntry(Name=src["name"], sValue=f"{user_mag!r} {ustr}", Comment="", raw_entry="")
+                n_eval += 1
+                try:
+                    with contextlib.redirect_stdout(io.StringIO()):
+                        ReadParameter(entry, p, stub)
+                    results[key].append(f"{src['name']}: {user_mag!r} {ustr} (= {v_pref!r} {pref}, range [{lo}, {hi}]) accepted, "
+                                        f"value now {p.value!r}")
+                except ValueError as e:
+                    if src["name"] not in str(e):
+                        results[key].append(f"{src['name']}: rejected without naming the parameter: {str(e)[:80]}")
+                    elif p.value != before:
+                        results[key].append(f"{src['name']}: rejected but value changed to {p.value!r}")
+                except BaseException as e:
+                    # another failure (an unknown catalogue unit ...) is a rejection too; which error is C06's subject
+                    if p.value != before:
+                        results[key].append(f"{src['name']}: {type(e).__name__} and value changed to {p.value!r}")
+    viol = []
+    for (kind, ustr), bad in sorted(results.items()):
+        if bad:
+            viol.append({"name": f"{kind} unit '{ustr}': an out-of-range quantity written in this unit is rejected",
+                         "failing": sorted(set(bad))[:6], "count": len(set(bad))})
+    return {"bound": f"{n_eval} real ReadParameter runs: every distinct float parameter declaration x every catalogue unit of its "
+                     f"kind x {2 if tier != 'thorough' else 3} out-of-range quantities (beyond Max by half the range and by a "
+                     f"thousandth of it{', below Min by half the range' if tier == 'thorough' else ''})",
+            "evaluations": n_eval, "unit_clause_pairs": len(results), "violations": viol,
+            "labelled": "bounded - not counted as proved"}
